@@ -1,6 +1,138 @@
-"""Further monitors (layer rules, diagrams, scans, drawing); filled in per property."""
+"""Further monitors: scans (R-SCAN post-condition on get_evaluable_architecture), layer rules,
+diagrams, drawing backend, builder traces.  Installed by monitors.install()."""
 from __future__ import annotations
+
+import functools
+import inspect
+import os
+from dataclasses import dataclass, field
+
+from .monitors import HUB, Event, graph_state, hierarchy_problems, trace_of, truth_from_state, _wrap_fluent, _purity
+from .refmodel import scan as rscan
+
+
+# ---------------------------------------------------------------------------------
+# scans
+# ---------------------------------------------------------------------------------
+
+
+@dataclass
+class ScanEvent:
+    args: dict
+    outcome: str  # "ok" | "error"
+    exc_type: str | None = None
+    message: str | None = None
+    state: tuple | None = None
+    nodes: frozenset = frozenset()
+    imps: frozenset = frozenset()
+    findings: list = field(default_factory=list)  # (category, key, text, detail)
+    hierarchy: list = field(default_factory=list)
+    model: object = None
+    evaluable: object = None
+
+
+def _normalise_scan_args(ba) -> dict:
+    a = dict(ba.arguments)
+    excl = a.get("exclusions")
+    rex = a.get("regex_exclusions")
+    a["_globs"] = tuple(excl) if excl else ()
+    a["_regexes"] = tuple(rex) if (rex and not excl) else ()
+    ee = a.get("external_exclusions")
+    ree = a.get("regex_external_exclusions")
+    a["_ext_globs"] = tuple(ee) if ee else ()
+    a["_ext_regexes"] = tuple(ree) if (ree and not ee) else ()
+    return a
+
+
+def _wrap_scan():
+    import pytestarch
+    import pytestarch.pytestarch as entry
+
+    orig = entry.get_evaluable_architecture
+    sig = inspect.signature(orig)
+
+    @functools.wraps(orig)
+    def get_evaluable_architecture(*args, **kwargs):
+        if not HUB.active:
+            return orig(*args, **kwargs)
+        try:
+            ba = sig.bind(*args, **kwargs)
+            ba.apply_defaults()
+            a = _normalise_scan_args(ba)
+        except TypeError:
+            return orig(*args, **kwargs)
+        HUB.acc.count("scan_calls")
+        try:
+            ev = orig(*args, **kwargs)
+        except Exception as e:  # noqa: BLE001
+            HUB.scan_events.append(ScanEvent(a, "error", type(e).__name__, str(e)))
+            raise
+        se = ScanEvent(a, "ok", evaluable=ev)
+        se.state = graph_state(ev)
+        if se.state is not None:
+            se.nodes, se.imps = truth_from_state(se.state)
+            se.hierarchy = hierarchy_problems(se.state)
+            try:
+                if "SCAN" in HUB.judges:
+                    _judge_scan(se)
+            except Exception as e:  # noqa: BLE001
+                HUB.acc.count("scan_model_errors")
+                HUB.acc.hist("scan_model_error", f"{type(e).__name__}: {e}"[:200])
+        HUB.scan_events.append(se)
+        if len(HUB.scan_events) > 64:
+            del HUB.scan_events[:-64]
+        return ev
+
+    get_evaluable_architecture._pta_orig = orig
+    entry.get_evaluable_architecture = get_evaluable_architecture
+    pytestarch.get_evaluable_architecture = get_evaluable_architecture
+
+
+def _judge_scan(se: ScanEvent) -> None:
+    a = se.args
+    root, mp = str(a["root_path"]), str(a["module_path"])
+    m = rscan.model(root, mp, a["_globs"], a["_regexes"])
+    se.model = m
+    ex = rscan.expect(m, bool(a["exclude_external_libraries"]), a["level_limit"], a["_ext_globs"], a["_ext_regexes"])
+    se.findings = rscan.compare(m, ex, set(se.nodes), set(se.imps), bool(a["exclude_external_libraries"]))
+    HUB.acc.count("scans_judged")
+    HUB.acc.count("scan_statements_checked", len(m.statements))
+    HUB.acc.count("scan_required_edge_groups", len(ex.required_groups))
+
+
+def attribute_scan_findings(se: ScanEvent, mapping: dict, case=None, baseline: ScanEvent | None = None) -> int:
+    """Turns the generic findings of one scan into violations of the properties a check is
+    responsible for.  mapping: category -> property id (categories not in the mapping are
+    ignored here; they belong to another property's check).  With `baseline`, only findings that
+    do not also occur in the baseline scan are attributed (differential attribution)."""
+    base = set()
+    if baseline is not None:
+        base = {(c, k, repr(d)) for c, k, _t, d in baseline.findings}
+    n = 0
+    saved = HUB.case
+    if case is not None:
+        HUB.case = case
+    for c, k, text, detail in se.findings:
+        if c not in mapping or (c, k, repr(detail)) in base:
+            continue
+        HUB.violation(mapping[c], f"{c}:{k}", text, {"args": _plain_args(se.args), "detail": detail})
+        n += 1
+    if "hierarchy" in mapping:
+        for h in se.hierarchy:
+            HUB.violation(mapping["hierarchy"], "hierarchy-invariant", h, {"args": _plain_args(se.args)})
+            n += 1
+    HUB.case = saved
+    return n
+
+
+def _plain_args(a):
+    return {k: (list(v) if isinstance(v, tuple) else v if isinstance(v, (str, int, bool, type(None))) else str(v)) for k, v in a.items()}
+
+
+# ---------------------------------------------------------------------------------
+# install
+# ---------------------------------------------------------------------------------
 
 
 def install(hub) -> None:
-    pass
+    _wrap_scan()
